@@ -2,7 +2,7 @@
 """Runs every registered check (MANIFEST.json) and validates the evidence it wrote.  usage: run_all.py [--tier quick] [-j 4] [Cxx ...]"""
 import argparse, json, os, subprocess, sys, time
 from concurrent.futures import ThreadPoolExecutor
-V = "/verif"
+V = os.path.dirname(os.path.dirname(os.path.abspath(__file__)))
 ap = argparse.ArgumentParser(); ap.add_argument("ids", nargs="*"); ap.add_argument("--tier", default="quick"); ap.add_argument("-j", type=int, default=4)
 a = ap.parse_args()
 man = json.load(open(V + "/MANIFEST.json"))
